@@ -49,6 +49,7 @@ class Obl:
         self.kind = kind
         self.finding_key = finding_key
         self.functions = list(functions)
+        self.batch = None         # (key, max group size) or None
         # results
         self.verdict = None
         self.detail = ''
@@ -226,6 +227,31 @@ def run_obligation(ob):
     return ob
 
 
+def run_batch(obs):
+    """Several obligations of the same module in one CrossHair process
+    (saves the ~6 s start-up per obligation)."""
+    if len(obs) == 1:
+        return [run_obligation(obs[0])]
+    t0 = time.time()
+    funcs = []
+    for ob in obs:
+        funcs.append(ob.func)
+        if ob.twin:
+            funcs.append(ob.twin)
+    tmax = max(ob.timeout for ob in obs)
+    out, err, rc, dt = _run_crosshair(obs[0].module, funcs, tmax)
+    if 'HARNESS-ERROR' in out or rc not in (0, 1):
+        # fall back to one process per obligation
+        return [run_obligation(ob) for ob in obs]
+    res = _parse(obs[0].module, out)
+    for ob in obs:
+        ob.verdict, ob.detail = _classify(ob, res.get(ob.func, []))
+        if ob.twin:
+            ob.twin_verdict = _classify_twin(res.get(ob.twin, []))
+        ob.time_s = (time.time() - t0) / len(obs)
+    return obs
+
+
 def load_known(prop):
     if not os.path.exists(KNOWN):
         return []
@@ -244,19 +270,38 @@ def run_property(prop, tier, level, obligations, explanation, assumptions,
     os.makedirs(REPLAY_DIR, exist_ok=True)
     not_started = []
     done = []
+    # group batchable obligations (same module, same batch key)
+    groups = []
+    pending = {}
+    for ob in obligations:
+        b = getattr(ob, 'batch', None)
+        if not b:
+            groups.append([ob])
+            continue
+        key = (ob.module, b[0])
+        g = pending.setdefault(key, [])
+        g.append(ob)
+        if len(g) >= b[1]:
+            groups.append(g)
+            pending[key] = []
+    groups.extend(g for g in pending.values() if g)
+    # long-running groups first
+    groups.sort(key=lambda g: -sum(o.timeout for o in g))
     with cf.ThreadPoolExecutor(max_workers=NCPU) as ex:
         futs = {}
-        for ob in obligations:
-            futs[ex.submit(run_obligation, ob)] = ob
+        for g in groups:
+            futs[ex.submit(run_batch, g)] = g
         for fut in cf.as_completed(futs):
-            ob = futs[fut]
+            g = futs[fut]
             try:
                 fut.result()
             except Exception as e:  # noqa
-                ob.verdict, ob.detail = HARNESS_ERROR, 'runner: %r' % e
-            done.append(ob)
-            sys.stderr.write('[%s] %-40s %-16s %5.1fs %s\n' % (
-                prop, ob.oid, ob.verdict, ob.time_s, ob.detail[:160]))
+                for ob in g:
+                    ob.verdict, ob.detail = HARNESS_ERROR, 'runner: %r' % e
+            for ob in g:
+                done.append(ob)
+                sys.stderr.write('[%s] %-40s %-16s %5.1fs %s\n' % (
+                    prop, ob.oid, ob.verdict, ob.time_s, ob.detail[:160]))
             sys.stderr.flush()
 
     violations = [o for o in done if o.verdict == VIOLATION]
